@@ -1,5 +1,6 @@
 """C06 — export results depend only on what was exported (structural clauses)."""
 from rules import export_rules as E
+from rules import merge_rules as MR
 
 ASSUMPTIONS = ["path::absolute yields one canonical spelling per file (lexical normalisation; symlinks out of scope)"]
 
@@ -9,7 +10,7 @@ def run(ctx):
     for fs in ctx.featuresets():
         c = ctx.mir(fs)["ts_rs"]
         res = [E.registry_key_rule(c, "C06"), E.first_touch_rule(c, "C06"), E.env_rule(c, "C06"), E.walk_rule(c, "C06"),
-               E.single_writer_rule(c, "C06", ctx.syn)]
+               E.single_writer_rule(c, "C06", ctx.syn), MR.import_union_rule(c, "C06", rule="C06.R5")]
         for r in res:
             if fs != "default":
                 r.rule += "@" + fs
